@@ -10,8 +10,8 @@ Definition is_user_state (st : N) : bool := (st =? CKS_RO_USER_FUNCTIONS) || (st
 Definition is_rw_state (st : N) : bool := (st =? CKS_RW_PUBLIC_SESSION) || (st =? CKS_RW_USER_FUNCTIONS) || (st =? CKS_RW_SO_FUNCTIONS).
 
 (* the five states PKCS#11 knows; every other value is answered with an error *)
-Lemma haveRead_cases (st p : N) :
-  gen_haveRead st p = CKR_OK -> (p = 0 \/ is_user_state st = true).
+Lemma haveRead_cases (st t p : N) :
+  gen_haveRead st t p = CKR_OK -> (p = 0 \/ is_user_state st = true).
 Proof.
   unfold gen_haveRead, is_user_state. cbv [CKS_RO_USER_FUNCTIONS CKS_RW_USER_FUNCTIONS CKR_OK].
   destruct (st =? 0) eqn:E0; destruct (st =? 2) eqn:E2; destruct (st =? 4) eqn:E4;
